@@ -33,8 +33,8 @@ func (r *rng) intn(n int) int {
 	return int(r.next() % uint64(n))
 }
 func (r *rng) chance(num, den int) bool { return r.intn(den) < num }
-func (r *rng) fork() *rng             { return &rng{s: r.next()} }
-func pick[T any](r *rng, xs []T) T    { return xs[r.intn(len(xs))] }
+func (r *rng) fork() *rng               { return &rng{s: r.next()} }
+func pick[T any](r *rng, xs []T) T      { return xs[r.intn(len(xs))] }
 func (r *rng) bytes(n int) []byte {
 	out := make([]byte, n)
 	for i := range out {
